@@ -47,8 +47,8 @@ Definition tool_eval (name : string) (args : list string) : answer :=
   | Some r, Some o, Some l =>
       mkanswer (if junsupported (jbody r) then "unsupported" else if is_opaque (jbody r) then "opaque" else "row")
                (match jsem l (jbody r) with Some z => string_of_z z | None => "undef" end)
-               (string_of_z (spec o l))
-               (typedb (fst (sop_sig o)) l) (in_dom o l) (fits_javab o l) bad
+               (if in_dom o l then string_of_z (spec o l) else "")       (* outside the domain the definition says nothing *)
+               (typedb (fst (sop_sig o)) l) (in_dom o l) (if in_dom o l then fits_javab o l else false) bad
   end.
 
 (* names of the rows by class, for the evidence *)
